@@ -344,11 +344,14 @@ func Clients() *runner.ExtraResult {
 			// the second request must be as clean as the first
 			// "watch#plain": Watch called the way client-go's typed clients are called, without the Watch flag in the
 			// options - it must still be a watch request on the watch path of the resource
-			for _, call := range []string{"list", "watch", "watch#2", "list#2", "watch#plain"} {
+			// "#sel": the caller's label and field selectors must reach the server on both verbs (a controller built on a
+			// selector-restricted client otherwise lists one set of objects and watches another)
+			for _, call := range []string{"list", "watch", "watch#2", "list#2", "watch#plain", "list#sel", "watch#sel"} {
 				res.Distinct++
 				id := fmt.Sprintf("%s %s %s", pkg, call, nsTag)
-				verb := strings.TrimSuffix(strings.TrimSuffix(call, "#2"), "#plain")
+				verb := strings.TrimSuffix(strings.TrimSuffix(strings.TrimSuffix(call, "#2"), "#plain"), "#sel")
 				plain := strings.HasSuffix(call, "#plain")
+				withSel := strings.HasSuffix(call, "#sel")
 				rv := "42"
 				if call == "watch#2" {
 					rv = "43"
@@ -371,12 +374,21 @@ func Clients() *runner.ExtraResult {
 					expQuery = url.Values{"watch": {"true"}, "resourceVersion": {rv}}
 				}
 
+				if withSel {
+					expQuery["labelSelector"] = []string{"app=web"}
+					expQuery["fieldSelector"] = []string{"metadata.name=x"}
+				}
+
 				var callErr error
 				var gotType reflect.Type
 				var listRV string
 				switch verb {
 				case "list":
-					obj, err := c.List(ctx, metav1.ListOptions{})
+					lo := metav1.ListOptions{}
+					if withSel {
+						lo.LabelSelector, lo.FieldSelector = "app=web", "metadata.name=x"
+					}
+					obj, err := c.List(ctx, lo)
 					callErr = err
 					if obj != nil {
 						gotType = reflect.TypeOf(obj)
@@ -385,7 +397,11 @@ func Clients() *runner.ExtraResult {
 						}
 					}
 				case "watch":
-					w, err := c.Watch(ctx, metav1.ListOptions{ResourceVersion: rv, Watch: !plain})
+					wo := metav1.ListOptions{ResourceVersion: rv, Watch: !plain}
+					if withSel {
+						wo.LabelSelector, wo.FieldSelector = "app=web", "metadata.name=x"
+					}
+					w, err := c.Watch(ctx, wo)
 					callErr = err
 					if w != nil {
 						gotType = reflect.TypeOf(w)
